@@ -46,6 +46,9 @@ MemberSitesOf(k) == IF k = "GROUP" THEN {"GROUP/REF_CHARACTERISTIC.identifier_li
 \* held: the group / function is referenced from outside, so it stays even if cleanup emptied it
 MixedCases == UNION {UNION {UNION {{[fam |-> "mixed", gk |-> gk, bad |-> b, good |-> g, held |-> h] : g \in MemberSitesOf(gk) \ {b}} :
                                       b \in MemberSitesOf(gk)} : gk \in {"GROUP", "FUNCTION"}} : h \in BOOLEAN}
+\* a MODULE without any measurement / calibration object (a "structure" module): USER_RIGHTS holds a GROUP, the GROUP
+\* holds FUNCTIONs directly, through a sub-group or through a sub-function; one FUNCTION and one GROUP are unused
+NoObjCases == {[fam |-> "noobj", via |-> v, unused |-> u] : v \in {"function_list", "sub_function", "sub_group"}, u \in BOOLEAN}
 IsMeasSite(s) == s \in {"GROUP/REF_MEASUREMENT.identifier_list", "FUNCTION/IN_MEASUREMENT.identifier_list",
                         "FUNCTION/LOC_MEASUREMENT.identifier_list", "FUNCTION/OUT_MEASUREMENT.identifier_list"}
 
@@ -83,6 +86,15 @@ ModuleOf(x) ==
                        ELSE IF x.kind = "GROUP" THEN <<El("USER_RIGHTS", "user0", 41, <<<<"USER_RIGHTS/REF_GROUP.identifier_list", <<"h1">>>>>>)>>
                        ELSE <<El("MEASUREMENT", "m1", 52, <<<<"MEASUREMENT/FUNCTION_LIST.name_list", <<"h1">>>>>>)>>
         IN chain \o refd \o headRef \o <<El("CHARACTERISTIC", "c0", 60, <<>>)>>
+    ELSE IF x.fam = "noobj" THEN
+        <<El("USER_RIGHTS", "user0", 41, <<<<"USER_RIGHTS/REF_GROUP.identifier_list", <<"g1">>>>>>)>>
+        \o (IF x.via = "sub_group"
+            THEN <<El("GROUP", "g1", 20, <<<<"GROUP/SUB_GROUP.identifier_list", <<"g2">>>>>>),
+                   El("GROUP", "g2", 21, <<<<"GROUP/FUNCTION_LIST.name_list", <<"f1", "f2">>>>>>)>>
+            ELSE <<El("GROUP", "g1", 20, <<<<"GROUP/FUNCTION_LIST.name_list", <<"f1">>>>>>)>>)
+        \o <<El("FUNCTION", "f1", 30, IF x.via = "sub_function" THEN <<<<"FUNCTION/SUB_FUNCTION.identifier_list", <<"f2">>>>>> ELSE <<>>),
+              El("FUNCTION", "f2", 31, <<>>)>>
+        \o (IF x.unused THEN <<El("FUNCTION", "f_unused", 32, <<>>), El("GROUP", "g_unused", 22, <<>>)>> ELSE <<>>)
     ELSE IF x.fam = "mixed" THEN
         <<El(x.gk, "g1", 20, <<<<x.bad, <<"missing1", "missing2">>>>, <<x.good, <<"x0">>>>>>),
           El(IF IsMeasSite(x.good) THEN "MEASUREMENT" ELSE "CHARACTERISTIC", "x0", 60, <<>>)>>
@@ -98,9 +110,9 @@ Flat(M) == [elems |-> [i \in 1..Len(M) |-> <<NsOfKind[M[i].kind], M[i].kind, M[i
             refs |-> SetToSeq(FlatRefs(M))]
 
 Init == sc = [stage |-> 0]
-Next == \/ sc.stage = 0 /\ \E f \in {"site", "chain", "member", "mixed"} : sc' = [stage |-> 1, fam |-> f]
+Next == \/ sc.stage = 0 /\ \E f \in {"site", "chain", "member", "mixed", "noobj"} : sc' = [stage |-> 1, fam |-> f]
         \/ sc.stage = 1 /\ \E x \in (IF sc.fam = "site" THEN SiteCases ELSE IF sc.fam = "chain" THEN ChainCases
-                                      ELSE IF sc.fam = "mixed" THEN MixedCases ELSE MemberCases) :
+                                      ELSE IF sc.fam = "mixed" THEN MixedCases ELSE IF sc.fam = "noobj" THEN NoObjCases ELSE MemberCases) :
                                sc' = [stage |-> 2, x |-> x]
 Spec == Init /\ [][Next]_sc
 
